@@ -329,10 +329,18 @@ func gen(c *ex.Ctx) {
 		c.Fail("image.go: resizeImage not found")
 		return
 	}
-	if !canonicalise(c, fd, "", []string{"img", "w", "h", "cellPixW", "cellPixH"},
-		[]string{"wPix", "hPix", "columns", "lines", "sfX", "sfY", "newPixelWidth", "newPixelHeight", "dst"}) {
+	// since the F420 repair the function starts by translating an image whose bounds do not start at the origin
+	// (`if min := img.Bounds().Min; min != (image.Point{}) { img = originImage{…} }`): one more local, defined first
+	resizeLocals := []string{"wPix", "hPix", "columns", "lines", "sfX", "sfY", "newPixelWidth", "newPixelHeight", "dst"}
+	if fd.Body != nil && len(fd.Body.List) > 0 {
+		if is, ok := fd.Body.List[0].(*ast.IfStmt); ok && is.Init != nil {
+			resizeLocals = append([]string{"min"}, resizeLocals...)
+		}
+	}
+	if !canonicalise(c, fd, "", []string{"img", "w", "h", "cellPixW", "cellPixH"}, resizeLocals) {
 		return
 	}
+	originNormalised := false
 	colsUp, linesUp := false, false
 	var fitCond string
 	var arms []string
@@ -340,6 +348,10 @@ func gen(c *ex.Ctx) {
 	for _, s := range fd.Body.List {
 		t := src(c, s)
 		switch {
+		case t == "if min := img.Bounds().Min; min != (image.Point{}) { img = originImage{Image: img, min: min} }" && len(have) == 0:
+			// (must be the first statement: everything after it measures the translated image)
+			originNormalised = true
+			continue
 		case t == "wPix := img.Bounds().Max.X", t == "hPix := img.Bounds().Max.Y",
 			t == "columns := wPix / cellPixW", t == "lines := hPix / cellPixH",
 			t == "sfX := float64(w) / float64(columns)", t == "sfY := float64(h) / float64(lines)",
@@ -440,6 +452,7 @@ func gen(c *ex.Ctx) {
 		c.Fail("image.go resizeImage: early return or scale-factor switch not found")
 		return
 	}
+	fmt.Fprintf(&sb, "\n/-- resizeImage starts by translating an image whose bounds do not start at the origin to (0, 0) (F420). -/\ndef resizeOriginNormalised : Bool := %v\n", originNormalised)
 	fmt.Fprintf(&sb, "\n/-- `if wPix%%cellPixW != 0 { columns += 1 }` present / same for lines. -/\ndef columnsRoundUp : Bool := %v\ndef linesRoundUp : Bool := %v\n", colsUp, linesUp)
 	fmt.Fprintf(&sb, "/-- the guard of `return img`: `columns <c1> w  <conn>  lines <c2> h`. -/\ndef fitCond : Cmp × Conn × Cmp := %s\n", fitCond)
 	fmt.Fprintf(&sb, "/-- arms of the scale-factor switch, in source order. -/\ndef resizeArms : List Arm := [%s]\n", strings.Join(arms, ", "))
